@@ -1,5 +1,5 @@
 (* C16 property theorems.  Only statements closed by [exact]; each followed by Print Assumptions. *)
-From Miller Require Import Base.Record C16.Model C16.Format C16.CivilProofs C16.TextProofs C16.Proofs C16.FormatProofs C16.GmtProofs C16.DhmsProofs C16.ZoneProofs C16.LocalProofs C16.Verb C16.VerbProofs C16.Datediff C16.DatediffProofs gen.Gen_Zones.
+From Miller Require Import Base.Record C16.Model C16.Format C16.CivilProofs C16.TextProofs C16.Proofs C16.FormatProofs C16.GmtProofs C16.DhmsProofs C16.ZoneProofs C16.LocalProofs C16.OverlapProofs C16.Verb C16.VerbProofs C16.Datediff C16.DatediffProofs gen.Gen_Zones.
 Open Scope Z_scope.
 
 (* calendar inverses, ALL integers / all valid dates of all years (proleptic Gregorian) *)
@@ -166,6 +166,43 @@ Theorem C16_overlaps_and_gaps_text_gen_zones :
   forallb (fun z => transitions_text_ok z (z_base z) (z_trans z)) gen_zones = true.
 Proof. exact gen_zones_transitions_text_ok. Qed.
 Print Assumptions C16_overlaps_and_gaps_text_gen_zones.
+
+(* ---- THE LOCAL ROUND TRIP AT ALL INSTANTS, OVERLAP HOURS INCLUDED (general lemma over ANY well-formed table and EVERY
+   reading; no per-table computation).  "localtime2sec(sec2localtime(t)) = t for all t" is FALSE inside an overlap for one of
+   the two instants that share a wall-clock reading; what holds for every t: time.Date's resolution of the reading of t is an
+   instant r with the SAME reading, so r = t + (offset_at t - offset_at r): r = t when the offsets agree (always outside
+   overlaps: C16_localtime2sec_sec2localtime), otherwise r is the other instant of the overlap, |r - t| = size of the overlap. *)
+Theorem C16_local_round_trip_all_instants :
+  forall z t, wf_ztable z = true -> ALPHA + ZD <= t -> t <= OMEGA - ZD ->
+  to_local z (of_local z (to_local z t)) = to_local z t.
+Proof. exact to_local_of_local_to_local. Qed.
+Print Assumptions C16_local_round_trip_all_instants.
+
+Theorem C16_local_round_trip_all_instants_offset :
+  forall z t, wf_ztable z = true -> ALPHA + ZD <= t -> t <= OMEGA - ZD ->
+  let r := of_local z (to_local z t) in r = t + (offset_at z t - offset_at z r).
+Proof. exact of_local_to_local_all. Qed.
+Print Assumptions C16_local_round_trip_all_instants_offset.
+
+(* through the text, k = 0..9 decimals: at EVERY instant localtime2sec(sec2localtime(t, k, zone), zone) succeeds and returns an
+   instant that sec2localtime prints as the same text *)
+Theorem C16_localtime2sec_sec2localtime_all_instants :
+  forall z t ns k, wf_ztable z = true -> ALPHA + ZD <= t -> t <= OMEGA - ZD -> LO <= to_local z t <= HI ->
+  0 <= ns < 1000000000 -> (k <= 9)%nat ->
+  exists r, localtime2sec z (fmt_time true (to_local z t) ns (Z.of_nat k)) = Some r /\
+            to_local z r = to_local z t /\ r = t + (offset_at z t - offset_at z r) /\
+            sec2localtime_int z r 0 = sec2localtime_int z t 0.
+Proof. exact localtime2sec_sec2localtime_all. Qed.
+Print Assumptions C16_localtime2sec_sec2localtime_all_instants.
+
+(* non-vacuity: one overlap hour; an instant of the first pass is sent to the second pass, which is a fixed point *)
+Example C16_local_round_trip_all_instants_nonvacuous :
+  wf_ztable overlap_demo = true /\
+  of_local overlap_demo (to_local overlap_demo 998200) = 1001800 /\
+  to_local overlap_demo 1001800 = to_local overlap_demo 998200 /\
+  of_local overlap_demo (to_local overlap_demo 1001800) = 1001800 /\
+  of_local overlap_demo (to_local overlap_demo 990000) = 990000.
+Proof. exact overlap_demo_facts. Qed.
 
 (* gmt2nsec returns int64 nanoseconds: exact whenever n * 10^9 fits in int64 (1677-09-21 .. 2262-04-11) *)
 Theorem C16_gmt2nsec_sec2gmt :
